@@ -68,14 +68,21 @@ Definition run_net (v : jv) : jv :=
         ("left", JArr (map (fun j => JBytes (cbuf nt j)) ws));
         ("closed", JArr (map (fun i => JBool (match s_pc (srv nt) i with Closed => true | _ => false end)) ws))].
 
-(* ---- the executable statement: {anns:[[id]], j, complete:[bool], seen:[id]} -> verdict for worker j ---- *)
+(* ---- the executable statement: {anns:[[id]], j, complete:[bool], seen:[id], fanouts:[id], known:[id]|null}
+   -> verdict for worker j ---- *)
 Definition holds_c20 (v : jv) : jv :=
   let anns := map (fun a => map as_str (as_arr a)) (as_arr (jfield "anns" v)) in
   let complete := map as_bool (as_arr (jfield "complete" v)) in
   let seen := map as_str (as_arr (jfield "seen" v)) in
   if negb (distinct (concat anns)) then JStr (pys "precondition-distinct-ids")
   else if negb (forallb (fun u => Nat.eqb (length u) IDLEN) (concat anns)) then JStr (pys "precondition-32-bytes")
-  else JStr (check_worker anns complete (nat_of (jfield "j" v)) seen).
+  else
+    let known := match jfield "known" v with JArr k => fun u => mem_bytes u (map as_str k) | _ => fun _ => true end in
+    let fan_ok := match jfield "fanouts" v with
+                  | JArr f => list_eqb bytes_eqb (map as_str f) (filter known seen)
+                  | _ => true end in
+    let verdict := check_worker anns complete (nat_of (jfield "j" v)) seen in
+    if str_eqb verdict (pys "ok") && negb fan_ok then JStr (pys "found-event-not-fanned-out-once") else JStr verdict.
 
 (* legacy reader (read(32)), for the record of what the unrepaired code did *)
 Definition run_legacy (v : jv) : jv := jbytes_list (legacy_reads (map as_str (as_arr (jfield "chunks" v)))).
